@@ -235,6 +235,19 @@ def closure(unit, units):
 
 def build_c(unit, units, outdir, defines=()):
     os.makedirs(outdir, exist_ok=True)
+    if unit.get('base_uses'):
+        # a base-class method called on `this`: the contract of the base unit is used VERBATIM (same text, same prelude), only the
+        # self struct is the derived one -- inherited members have the same names, so the clauses mean the same thing
+        units = dict(units)
+        for b_ in unit['base_uses']:
+            if b_ not in units:
+                raise specmod.SpecError('unit %s base_uses unknown unit %s' % (unit['name'], b_))
+            u2 = dict(units[b_])
+            u2['self'] = unit['self']
+            units[b_] = u2
+        unit = dict(unit)
+        unit['uses'] = list(unit.get('uses', [])) + [b_ for b_ in unit['base_uses'] if b_ not in unit.get('uses', [])]
+        units[unit['name']] = unit
     # type environment shared by this unit and everything it uses
     typemap = {}
     records = {}
@@ -326,12 +339,26 @@ def build_c(unit, units, outdir, defines=()):
             shim_ghosts.append(('size_t', 'gh_f_' + vn))
         if any(re.search(r'\b%s_sort_(asc|desc)\s*\(' % re.escape(vn), rendered[n]['body'] or '') for n in allu):
             parts.append('VEC_SHIMS_SORT(%s, %s)' % (vn, el))
+    instances_used = {}
     seen_pl = set()
     for n in allu:
         pl = units[n]['sections'].get('prelude', '')
         if pl.strip() and pl not in seen_pl:
             seen_pl.add(pl)
             parts.append('/* prelude of %s */\n%s' % (n, pl))
+    # witness copies named by the contracts of used units that themselves use instances (their contracts mention gh_x_<i>)
+    for n in used:
+        for callee_, k_ in (units[n].get('instances') or {}).items():
+            decl_ = []
+            for gm in re.finditer(r'^\s*([A-Za-z_][\w ]*?[\w\*])\s+(gh_\w+(?:\s*,\s*gh_\w+)*)\s*;', units[callee_]['sections'].get('prelude', ''), re.M):
+                for g in re.split(r'\s*,\s*', gm.group(2)):
+                    for i_ in range(2, int(k_) + 1):
+                        nm_ = '%s_%d' % (g, i_)
+                        if not any(x[1] == nm_ for x in shim_ghosts):
+                            decl_.append('%s %s;' % (gm.group(1), nm_))
+                            shim_ghosts.append((gm.group(1), nm_))
+            if decl_:
+                parts.append('/* witness copies named by the contract of %s */\n%s' % (n, '\n'.join(decl_)))
     for n in used:
         r = rendered[n]
         if n in inl:
@@ -341,7 +368,31 @@ def build_c(unit, units, outdir, defines=()):
                 secs = {k: v for k, v in secs.items() if not k.startswith('loop ')}
             parts.append('/* inlined from the real source: %s */\nstatic %s\n%s' % (n, r['sig'], splice(r['body'], secs, n)))
         elif r['sig']:
-            parts.append('/* used under contract: %s */\n%s\n%s;' % (n, r['sig'], units[n]['sections'].get('contract', '').rstrip()))
+            ctr = units[n]['sections'].get('contract', '').rstrip()
+            k_inst = int((unit.get('instances') or {}).get(n, 1))
+            if k_inst > 1:
+                # WITNESS GENERALISATION: the callee contract is proved for ARBITRARY values of its ghost witnesses, and the real code
+                # cannot read a ghost (ghost text is spliced, checked to assign ghosts only), so the contract holds for every choice
+                # of witnesses at once.  The caller may therefore use k instances of the SAME ensures/assigns text, each over its own
+                # copy gh_x_<i> of the callee's ghosts (textual renaming through the preprocessor, nothing is re-written by hand).
+                gl_ = []
+                for gm in re.finditer(r'^\s*([A-Za-z_][\w ]*?[\w\*])\s+(gh_\w+(?:\s*,\s*gh_\w+)*)\s*;', units[n]['sections'].get('prelude', ''), re.M):
+                    for g in re.split(r'\s*,\s*', gm.group(2)):
+                        gl_.append((gm.group(1), g))
+                clauses = [l for l in ctr.split('\n') if l.startswith('__CPROVER_ensures') or l.startswith('__CPROVER_assigns')]
+                for i_ in range(2, k_inst + 1):
+                    decl_ = []
+                    for ty_, g in gl_:
+                        nm_ = '%s_%d' % (g, i_)
+                        if not any(x[1] == nm_ for x in shim_ghosts):
+                            decl_.append('%s %s;' % (ty_, nm_))
+                            shim_ghosts.append((ty_, nm_))
+                    if decl_:
+                        parts.append('/* witness copies for instance %d of %s */\n%s' % (i_, n, '\n'.join(decl_)))
+                    ctr += '\n/* instance %d (witness generalisation) */\n' % i_ + '\n'.join('#define %s %s_%d' % (g, g, i_) for _, g in gl_) + '\n' + \
+                        '\n'.join(clauses) + '\n' + '\n'.join('#undef %s' % g for _, g in gl_)
+                instances_used[n] = k_inst
+            parts.append('/* used under contract: %s */\n%s\n%s\n;' % (n, r['sig'], ctr))
     parts.append('/* ---- function under verification: %s ---- */\n%s\n%s\n%s' % (unit['name'], main['sig'], unit['sections'].get('contract', '').rstrip(), body))
     # harness
     hname = 'h_' + unit['name']
@@ -383,7 +434,7 @@ def build_c(unit, units, outdir, defines=()):
         if rendered[n]['printer']:
             fired.update(rendered[n]['printer'].fired)
     fired.update(types.fired)
-    return {'cpath': cpath, 'harness': hname, 'called': called, 'loops': nloops, 'fired': dict(fired), 'used': b_used_contract,
+    return {'cpath': cpath, 'harness': hname, 'called': called, 'loops': nloops, 'fired': dict(fired), 'used': b_used_contract, 'instances': instances_used,
             'src_file': main.get('file'), 'src_line': main.get('line'), 'ctext': ctext,
             'vec_types': list(types.vecs.keys())}
 
@@ -449,6 +500,8 @@ def check_flags(unit):
             fl.append(f)
     if unit.get('unwind'):
         fl += ['--unwind', str(unit['unwind']), '--unwinding-assertions']
+    elif unit.get('outer_unwind'):
+        fl += ['--unwind', str(unit['outer_unwind']), '--unwinding-assertions']
     return fl
 
 
@@ -583,6 +636,14 @@ def verify_unit(unit, units, tier='quick', jobs=4, log=None):
             unit['sections'] = {k: v for k, v in unit['sections'].items() if not k.startswith('loop ')}
             unit['backend'] = unit.get('bounded_backend', 'sat')
             b = build_c(unit, units, outdir, defines=['#define CAP %s' % unit.get('cap', '5'), '#define BOUNDED 1', '#define SHIM_IMPL 1'])
+        elif unit.get('outer_unwind'):
+            # outer-bounded: arrays at full capacity (65536) with the configured back end, loop contracts and callee contracts kept;
+            # only loops WITHOUT a loop contract (loops over a nested container whose element count is bounded in the requires
+            # clause) are unwound, with unwinding assertions.  Reported as a bounded stand-in, never counted as proved.
+            res['bounded'] = True
+            res['mode'] = 'outer-bounded (arrays: capacity 65536, %s; loops over %s unwound %s times with unwinding assertions)' % (
+                unit.get('backend', 'cvc5'), unit.get('outer_what', 'the outer container'), unit['outer_unwind'])
+            b = build_c(unit, units, outdir)
         elif unit.get('cap'):
             # capacity-bounded: loop contracts kept (induction over iterations), but every container holds <= cap elements.
             # Reported as a bounded stand-in, never counted as proved.
@@ -626,7 +687,7 @@ def verify_unit(unit, units, tier='quick', jobs=4, log=None):
     if missing or not props:
         res['reason'] = 'VACUITY: obligation classes missing: %s (of %d obligations)' % (missing, len(props))
         return res
-    if b['loops'] > nl and not unit.get('unwind'):
+    if b['loops'] > nl and not unit.get('unwind') and not unit.get('outer_unwind'):
         res['reason'] = 'SPEC-ERROR: %d loops in the extracted body but only %d loop contracts and no unwind bound' % (b['loops'], nl)
         return res
     timeout = int(unit.get('timeout', 900 if tier == 'quick' else 2400))
